@@ -30,7 +30,7 @@ ShapeList(l) == [i \in 1..Len(l) |-> ShapeOfM(l[i])]
 ShapeOfM(n) ==
   CASE n[1] = "DeclareClassical" -> "decl" [] n[1] = "DeclareQuantum" -> "qdecl" [] n[1] = "Assignment" -> "assign"
     [] n[1] = "GateCall" -> "gatecall" [] n[1] = "ExprStmt" -> "exprstmt" [] n[1] = "Reset" -> "reset" [] n[1] = "Barrier" -> "barrier"
-    [] n[1] = "Delay" -> "delay" [] n[1] = "Break" -> "break" [] n[1] = "Pragma" -> "pragma"
+    [] n[1] = "Delay" -> "delay" [] n[1] = "GPhase" -> "gphase" [] n[1] = "Break" -> "break" [] n[1] = "Pragma" -> "pragma"
     [] n[1] = "If" -> <<"if", ShapeList(n[3]), n[4], ShapeList(n[5])>>
     [] n[1] = "While" -> <<"while", ShapeList(n[3])>>
     [] n[1] = "For" -> <<"for", ShapeList(n[4])>>
